@@ -1,0 +1,22 @@
+//go:build verif
+
+// Contracts for the deductive verifier in /verif (comment-only: adds no declarations).
+package main
+
+//@ use strings nethttp
+
+// ---- C17: post-login redirects stay on the keymaster origin ------------------------------------
+//@ pure func noControlBytes(s string) bool = (forallIdx j int :: 0 <= j && j < len(s) ==> s[j] >= 0x20 && s[j] != 0x7f)
+//@ pure func safeDest(s string) bool = strPrefixOf("/", s) && !strPrefixOf("//", s) && !strPrefixOf("/\\", s) && noControlBytes(s)
+
+//@ func isSafeLoginDestination
+//@   intmode math
+//@   ensures ret0 ==> safeDest(dest)                                           #C17.safe-only @C17
+//@   ensures safeDest(dest) ==> ret0                                           #C17.safe-all @C17
+//@   loop 1 (i int) invariant 0 <= i && (forallIdx j int :: 0 <= j && j < i ==> dest[j] >= 0x20 && dest[j] != 0x7f) #C17.scan @C17
+//@   modifies nothing
+
+//@ func getLoginDestination
+//@   ensures safeDest(ret0)                                                    #C17.safe @C17
+//@   ensures ret0 == profilePath || ret0 == formGet(old(r.Form), "login_destination") || ret0 == formGet(r.Form, "login_destination")  #C17.echo @C17
+//@   cover ret0 != profilePath #C17.cover-echo @C17
